@@ -4,14 +4,8 @@ import json, os
 HERE = os.path.dirname(os.path.dirname(os.path.abspath(__file__)))
 TITLES = {json.loads(l)['id']: json.loads(l)['title'] for l in open(os.path.join(HERE, 'properties.jsonl'))}
 
-# property -> (design section, what is proved / compared, technique)
-CLAIMED = {
-    'C04': ('7/C04',
-            'Lean theorems over the reals about the model of find_closest_pair / the four interpolation kernels / the '
-            'region dispatch (bracketing, at-node, between-nodes for every (T,P), non-negativity, both-below-zero); the '
-            'same definitions run on Float are compared with Opacity.opacity on generated tables on every run.',
-            'Lean 4 theorems about a hand-written carrier-polymorphic model + differential correspondence check'),
-}
+TECH = 'Lean 4 theorems about a hand-written carrier-polymorphic model + differential correspondence check against /repo'
+CLAIMED = {k: (v['sec'], v['text'], v.get('tech', TECH)) for k, v in json.load(open(os.path.join(HERE, 'tools', 'claims.json'))).items()}
 NOT_YET = {}
 
 def main():
